@@ -310,9 +310,28 @@ def d5_fscale(ctx):
     ctx.check(bases == [2, 3], fo, fo.node, f"bases {bases}", "sizes are 2^a 3^b", f"sizes are built from {bases}", key="bases")
 
 
+def d6_purity(ctx):
+    ctx.rule("D6", "spectral helpers do not modify their arguments in place (results must not depend on earlier calls)")
+    repo = ctx.repo
+    from sa.common import param_mutations
+    n = 0
+    for q in ("convolve", "ns_optim_fft", "fscale", "freduce", "fexpand", "bp", "lp", "hp", "_freq_filter", "_freq_vector", "dft", "dft2"):
+        fi = repo.fn(f"{MOD}.{q}")
+        params = [p for p in fi.params]
+        muts = param_mutations(repo, fi, params)
+        n += 1
+        if not muts:
+            ctx.ok(fi, fi.node, f"{q}: no in-place operation on an argument or a view/alias of it", "arguments untouched", key="purity:" + q)
+        for st, tgt, p in muts:
+            ctx.violation(fi, st, st, f"`{src(st)[:60]}` modifies in place an array that may be the caller's `{p}` (np.asarray / atleast_1d / views return the same buffer for an ndarray "
+                          "argument): the caller's settings are rescaled on every call, so a second call with the same array - or with slices of it - filters with different corners "
+                          "(lp + hp is no longer the identity, bp no longer hp o lp)", key=f"purity:{q}:{p}")
+
+
 def run(ctx):
     ctx.run(d1_irfft)
     ctx.run(d2_same_crop)
     ctx.run(d3_filters)
     ctx.run(d4_half_spectrum)
     ctx.run(d5_fscale)
+    ctx.run(d6_purity)
